@@ -17,6 +17,7 @@ Allowed(m, o) ==
     /\ (m.s.known => /\ (o.kind = "pub" => o.qos <= m.s.mqos /\ (o.retain = 1 => m.s.ret = 1))
                      /\ (o.variant = "wild" => m.s.wild = 1)
                      /\ (o.variant = "shared" => m.s.shared = 1)
+                     /\ (o.variant = "sharedwild" => m.s.shared = 1 /\ m.s.wild = 1)
                      /\ (o.variant = "subid" => m.s.subid = 1))
 
 \* size-related rejections are judged only when the packet fits whatever the encoding: the limit is far away, or - for a
